@@ -46,7 +46,9 @@ pub fn gen_cfg(src: &mut Src, spec: &CfgSpec) -> WorldCfg {
     let bytes_per_tick = src.pick(spec.budgets);
     let s2c = gen_chans(src, spec);
     let c2s = gen_chans(src, spec);
-    WorldCfg { bytes_per_tick, s2c, c2s, n_clients }
+    // client ids are application-chosen: mostly small ones, sometimes the extremes of u64
+    let id_scheme = src.pick(&[0u8, 0, 0, 1, 2]);
+    WorldCfg { bytes_per_tick, s2c, c2s, n_clients, id_scheme }
 }
 
 #[derive(Clone)]
